@@ -3,9 +3,12 @@
 //
 // Three case kinds (T = int; a value is key*1000 + tag, the tag makes ties distinguishable):
 //
-//	@ C04 slice <cmp> v…     Slice[int] from FromSlice          ops: push pop peek len rm fix set setfix popall
-//	@ C04 heap <cmp>         two Heap[int] A, B from New(0,·)   ops: init initc push pushe pop peek len rm fix setv setfix popall
+//	@ C04 slice <cmp> v…     Slice[int] from FromSlice          ops: push pop peek len rm fix set setfix popall popalln
+//	@ C04 heap <cmp>         two Heap[int] A, B from New(0,·)   ops: init initc push pushe pop peek len rm fix setv setfix popall popalln
 //	@ C04 generic <cmp> v…   generic functions on a recording container   ops: init push pop rm fix set
+//
+// `popalln [A|B] <k>` (k >= 1) is `for x := range PopAll() { got = append(got, x); if len(got) == k { break } }`:
+// the consumer leaves the loop early (the model: k Pops, stopping at the first empty answer).
 //
 // After every operation both sides print the whole observable state: Slice.Values / Len() of
 // both heaps plus Index() and Value of every element ever allocated / every Less and Swap call
@@ -55,6 +58,7 @@ func init() {
 		},
 		Rule: "op sequences on Slice[int] / two Heap[int] with element handles (incl. PushElement of a detached handle into either heap, Value write + Fix) / the generic Init/Push/Pop/Remove/Fix on a recording container; " +
 			"keys from {0..5} (many ties, tags make equal keys distinguishable), in part all keys equal / two keys / 0..60; 0..9 elements, one case in ten 10..40; comparators lt/gt/key/rkey; " +
+			"PopAll drained and left early after k elements (popalln, k aimed at 1, n/2, n-1, n, n+3); stream `large` (1.5% of the cases in quick, 0.5% in thorough): the container is created with 63/64/65/100/127/128/129/200/255/256/257/500/999/1000/1001/1024/1025/2000 elements and gets <= 10 ops (early-left PopAll with small and large k, Pop/Push/Remove/Fix at root, last slot, middle); " +
 			"handle ops 85% live (aimed at the last slot, the root, removals whose substitute moves up), 10% stale (popped/removed/discarded by Init), 5% of the other heap; indices -1..len; " +
 			"non-trivial = at least 5 ops including a Remove or Fix; distinct by hash of the op list",
 		Classify: classify,
@@ -80,10 +84,18 @@ func kind(c core.Case) string {
 }
 
 func gen(r *core.Rand, tier string) core.Case {
-	switch r.Pick(35, 45, 20) {
+	// stream "large" (containers of 63..2000 elements, few ops): 1.5% of the cases in quick
+	// (~300), 0.5% in thorough (~4000)
+	large := 15
+	if tier == "thorough" {
+		large = 5
+	}
+	switch r.Pick(large, 350-large, 450, 200) {
 	case 0:
-		return genSlice(r)
+		return genLarge(r, tier)
 	case 1:
+		return genSlice(r)
+	case 2:
 		return genHeap(r)
 	}
 	return genGeneric(r)
@@ -118,10 +130,26 @@ func check(c core.Case, out []string) *core.Failure {
 }
 
 func classify(c core.Case, out []string) []string {
+	ls := classifyCase(c, out)
+	if c.Tag == "large" {
+		// which branches the BIG containers took
+		for _, l := range ls {
+			if len(l) > 2 && l[1] == ':' && (strings.Contains(l, ":rm") || strings.Contains(l, ":fix") || strings.Contains(l, ":setfix") || strings.Contains(l, ":push:") || strings.Contains(l, ":popalln:") || strings.Contains(l, ":popall:")) {
+				ls = append(ls, "large:"+l)
+			}
+		}
+	}
+	return ls
+}
+
+func classifyCase(c core.Case, out []string) []string {
 	k := kind(c)
 	ls := []string{k}
 	if h := core.Toks(c.Lines[0]); len(h) >= 4 {
 		ls = append(ls, "cmp:"+h[3])
+	}
+	if c.Tag == "large" {
+		ls = append(ls, "large", "large:"+k)
 	}
 	if k == "heap" {
 		return append(ls, classifyHeap(c, out)...)
@@ -227,6 +255,17 @@ func classify(c core.Case, out []string) []string {
 			}
 		case "popall":
 			ls = append(ls, p+"popall:n="+sizeBucket(n))
+		case "popalln":
+			ls = append(ls, p+"popalln:n="+sizeBucket(n))
+			if stop, ok := atoi(t[len(t)-1]); ok {
+				ls = append(ls, p+"popalln:"+stopLabel(stop, n))
+			}
+			if len(cur) > 0 {
+				ls = append(ls, p+"popalln:partial")
+				if n >= 64 {
+					ls = append(ls, p+"popalln:partial:n>=64")
+				}
+			}
 		}
 		ls = append(ls, lab)
 		prev = cur
@@ -234,6 +273,7 @@ func classify(c core.Case, out []string) []string {
 			maxLen = len(cur)
 		}
 	}
+	ls = append(ls, sizeLabels(maxLen)...)
 	return append(ls, p+"maxlen="+sizeBucket(maxLen))
 }
 
@@ -305,6 +345,10 @@ func removeOne(a []int, x int) ([]int, bool) {
 
 // sortedBy: no later element precedes an earlier one.
 func sortedBy(v []int, cmp func(a, b int) bool) bool {
+	if len(v) > 96 {
+		// big: neighbours only (the same thing for a strict weak order, which all four comparators are)
+		return sortedAdj(v, cmp)
+	}
 	for i := 0; i < len(v); i++ {
 		for j := i + 1; j < len(v); j++ {
 			if cmp(v[j], v[i]) {
@@ -320,6 +364,10 @@ func fail(key string, i int, c core.Case, out []string, f string, a ...any) *cor
 }
 
 func corpus() []core.Case {
+	return append(smallCorpus(), largeCorpus()...)
+}
+
+func smallCorpus() []core.Case {
 	return []core.Case{
 		{Lines: []string{"@ C04 slice key 5000 3001 4002 3003 1004 3005", "push 2006", "pop", "rm 2", "set 1 9001", "fix 1", "rm -1", "rm 4", "rm 3", "fix -1", "fix 3", "peek", "len", "popall", "pop", "peek", "rm 0"}},
 		{Lines: []string{"@ C04 slice lt", "pop", "peek", "rm 0", "fix 0", "push 3", "rm 0", "push 2", "push 1", "rm 1", "pop", "pop"}},
